@@ -3,7 +3,8 @@ import json
 
 from . import convfam as F
 from . import c01
-from ..engine import Harness
+from ..engine import Harness, Direct
+from . import tokfam
 from .. import rt, stubs
 
 ID = "C02"
@@ -26,6 +27,7 @@ META = {
     "out": ["n > 3 records per stream", "parsing of the input line (C16)", "walks longer than the bound"],
     "assumptions": c01.META["assumptions"],
 }
+META["explanation"] += '  tokens/conversion.py: the path tokenizers of conversion.py decided as languages by z3 (vp/props/tokfam.py).'
 
 
 def harnesses(tier):
@@ -36,6 +38,7 @@ def harnesses(tier):
     hs.append({"id": "parsed/roundtrip", "params": {"kind": "parsed"}, "timeout": 300})
     for n, walks in ((0, []), (1, [">s0"]), (2, [">s0>s1", "<a0"]), (3, ["<s1<s0", ">a0>a1", ">s2"]), (3, [">s0", ">s0", ">b0>s1"])):
         hs.append({"id": "stream/%d/%s" % (n, "+".join(walks)), "params": {"kind": "stream", "walks": walks}, "timeout": 400})
+    hs.append(tokfam.harness("C02", "gaftools/conversion.py"))
     return hs
 
 
@@ -83,6 +86,8 @@ def build_parsed():
 
 
 def build(params):
+    if params.get("kind") == "tokens":
+        return Direct(lambda: tokfam.run(params))
     if params["kind"] == "parsed":
         return build_parsed()
     if params["kind"] == "chain":
@@ -157,6 +162,8 @@ def build(params):
 
 
 def replay(params, model, wd):
+    if params.get("kind") == "tokens":
+        return tokfam.replay(params, model, wd)
     if params["kind"] == "parsed":
         segs = F.layout(PARSED_L)
         gfa, seqs = F.write_rgfa(wd, segs, [c01.parse_walk(l.split("\t")[5]) for l in PARSED])
